@@ -97,38 +97,118 @@ theorem inv_reader {s s' : State} (h : Inv s) (hs : readerStep s = some s') : In
   simp only at h1 h2 h3 h4 h5 h5' h6 h7 h8 h9
   subst h1 h2
   cases reader
-  case rAcq3 buf => sorry
+  case rAcq3 buf =>
+    cases closed
+    · have ho : killWOpen = true := by cases killWOpen <;> simp_all
+      subst ho
+      obtain ⟨L, hL, e⟩ := fold_use buf (State.mk (.rAcq3 buf) closer kernel plan false isReading stopFlag
+        rootWatched true true true inoData killData log puts) rfl
+      have hg := good_uses L hL
+      have hc := cnt_uses L hL
+      simp only [readerStep, readerEnabled, e] at hs
+      generalize batchLeaves buf = bl at hs
+      generalize batchPuts buf = bp at hs
+      cases bl <;> cases bp <;> cases stopFlag <;> simp [readerLoop] at hs <;> subst hs <;> inv_fin
+    · cases stopFlag <;> simp [readerStep, readerEnabled, readerLoop] at hs <;> subst hs <;> inv_fin
   case rPoll =>
     cases inoData <;> cases closed <;> cases killWOpen <;> cases isReading <;>
       simp [readerStep, readerEnabled, State.useFd, State.isOpen] at hs h3 h4 h5 h5' h6 h8 h9 <;>
       (try replace hs := hs.2) <;>
       subst hs <;> inv_fin
   case rPut n leave =>
-    sorry
+    rcases n with _ | _ | m <;> cases stopFlag <;> cases leave <;>
+      simp [readerStep, readerEnabled, readerLoop] at hs <;> subst hs <;> inv_fin
   all_goals
     cases closed <;> cases killWOpen <;> cases stopFlag <;> cases isReading <;>
       simp [readerStep, readerEnabled, readerLoop, State.useFd, State.isOpen, State.closeResources,
         State.closeFd] at hs h3 h4 h5 h5' h6 h8 h9 <;>
       subst hs <;> inv_fin
 
+theorem inv_closer {s s' : State} (h : Inv s) (hs : closerStep s = some s') : Inv s' := by
+  obtain ⟨reader, closer, kernel, plan, closed, isReading, stopFlag, rootWatched, inoOpen, killROpen,
+    killWOpen, inoData, killData, log, puts⟩ := s
+  obtain ⟨h1, h2, h3, h4, h5, h5', h6, h7, h8, h9⟩ := h
+  simp only at h1 h2 h3 h4 h5 h5' h6 h7 h8 h9
+  subst h1 h2
+  cases closer
+  case cAcq =>
+    cases closed <;> cases killWOpen <;> cases rootWatched <;> cases isReading <;>
+      simp [closerStep, closerEnabled, State.useFd, State.isOpen, State.closeResources,
+        State.closeFd] at hs h3 h4 h5 h5' h6 h8 h9 <;>
+      subst hs <;> inv_fin
+  all_goals
+    simp [closerStep, closerEnabled] at hs <;> (try replace hs := hs.2) <;> subst hs <;> inv_fin
+
+theorem inv_kernel {s s' : State} (h : Inv s) (hs : kernelStep s = some s') : Inv s' := by
+  obtain ⟨reader, closer, kernel, plan, closed, isReading, stopFlag, rootWatched, inoOpen, killROpen,
+    killWOpen, inoData, killData, log, puts⟩ := s
+  obtain ⟨h1, h2, h3, h4, h5, h5', h6, h7, h8, h9⟩ := h
+  simp only at h1 h2 h3 h4 h5 h5' h6 h7 h8 h9
+  subst h1 h2
+  cases kernel
+  case kInject l =>
+    cases l <;> simp [kernelStep] at hs <;> subst hs <;> inv_fin
+  all_goals
+    simp [kernelStep] at hs <;> subst hs <;> inv_fin
+
+theorem inv_step {s s' : State} {t : Nat} (h : Inv s) (hs : step s t = some s') : Inv s' := by
+  match t with
+  | 0 => exact inv_reader h hs
+  | 1 => exact inv_closer h hs
+  | 2 => exact inv_kernel h hs
+  | _ + 3 => simp [step] at hs
+
+theorem inv_run (sched : List Nat) {s : State} (h : Inv s) : Inv (run s sched) := by
+  induction sched generalizing s with
+  | nil => exact h
+  | cons t ts ih =>
+    simp only [run, List.foldl_cons]
+    cases hst : step s t with
+    | none => exact ih h
+    | some s' => exact ih (inv_step h hst)
+
+theorem inv_reach (plan : List (List Rec)) (sched : List Nat) : Inv (run (init plan) sched) :=
+  inv_run sched (inv_init plan)
+
 theorem no_use_after_close (plan : List (List Rec)) (sched : List Nat) (e : Ev)
     (h : e ∈ (run (init plan) sched).log) :
     (∀ fd w, e ≠ .useAfterClose fd w) ∧ (∀ fd, e ≠ .secondClose fd) := by
-  sorry
+  have hg := (inv_reach plan sched).lgood
+  simp only [goodL, List.all_eq_true] at hg
+  have := hg e h
+  constructor
+  · rintro fd w rfl; simp [good] at this
+  · rintro fd rfl; simp [good] at this
 
 theorem closed_at_most_once (plan : List (List Rec)) (sched : List Nat) (fd : Fd) :
     ((run (init plan) sched).log.filter (· == .close fd)).length ≤ 1 := by
-  sorry
+  have := (inv_reach plan sched).lcnt fd
+  unfold cnt at this
+  rw [this]
+  split <;> omega
 
 theorem released_when_done (plan : List (List Rec)) (sched : List Nat)
     (h : allDone (run (init plan) sched) = true) :
     (run (init plan) sched).inoOpen = false ∧ (run (init plan) sched).killROpen = false ∧
     (run (init plan) sched).killWOpen = false := by
-  sorry
+  have hi := inv_reach plan sched
+  generalize run (init plan) sched = s at h hi
+  simp only [allDone, Bool.and_eq_true, beq_iff_eq] at h
+  obtain ⟨hr, hc⟩ := h
+  have hcl := hi.past (Or.inr (Or.inr hc))
+  have ho : s.inoOpen = false := by
+    cases hio : s.inoOpen with
+    | false => rfl
+    | true =>
+      have := hi.rd.1 (hi.hand hcl hio)
+      rw [hr] at this
+      simp at this
+  exact ⟨ho, hi.same1.trans ho, hi.same2.trans ho⟩
 
 theorem reader_woken (plan : List (List Rec)) (sched : List Nat)
     (hc : (run (init plan) sched).closed = true) (hr : (run (init plan) sched).reader = .rPoll) :
     readerEnabled (run (init plan) sched) = true := by
-  sorry
+  have hk := (inv_reach plan sched).wake hc hr
+  simp [readerEnabled, hr, hk]
 
 end WD.ProofsFd
